@@ -108,14 +108,14 @@ func errText(e any) string {
 	switch x := e.(type) {
 	case nil:
 		return ""
+	case *core.SuExcept:
+		return string(x.SuStr)
 	case error:
 		return x.Error()
 	case string:
 		return x
-	case *core.SuExcept:
-		return string(x.SuStr)
 	case core.Value:
-		return x.String()
+		return core.ToStrOrString(x)
 	}
 	return fmt.Sprint(e)
 }
